@@ -67,30 +67,28 @@ def BestOK (pts : List (V2 ℝ)) (r : ℝ) (wi : Nat) (best : Option (Nat × V2 
 
 theorem pivotCand_ok (pts : List (V2 ℝ)) (r : ℝ) (dirn : AngleDir) (wi ni : Nat) (dir p : V2 ℝ)
     (best : Option (Nat × V2 ℝ × ℝ)) (hp : Touches pts r wi ni p) (hb : BestOK pts r wi best) :
-    BestOK pts r wi (pivotCand (pts.getD wi ⟨0, 0⟩) dir dirn ni best p) := by
+    BestOK pts r wi (pivotCand (pts.getD wi ⟨0, 0⟩) dir r (pts.getD ni ⟨0, 0⟩) dirn ni best p) := by
   unfold pivotCand
   dsimp only
-  split_ifs with h1
-  · exact hb
-  · cases best with
-    | none =>
-      intro x hx
-      simp only [Option.some.injEq] at hx
-      subst hx
-      exact hp
-    | some b =>
-      simp only
-      split_ifs with h2
-      · intro x hx
-        simp only [Option.some.injEq] at hx
-        subst hx
-        exact hp
-      · exact hb
+  -- whatever angle is recorded and whatever test skips a candidate: the best so far is either kept
+  -- or replaced by the candidate, which touches both circles
+  cases best with
+  | none =>
+    split_ifs
+    all_goals first
+      | exact hb
+      | (intro x hx; simp only [Option.some.injEq] at hx; subst hx; exact hp)
+  | some b =>
+    simp only
+    split_ifs
+    all_goals first
+      | exact hb
+      | (intro x hx; simp only [Option.some.injEq] at hx; subst hx; exact hp)
 
 theorem inner_fold_ok (pts : List (V2 ℝ)) (r : ℝ) (dirn : AngleDir) (wi ni : Nat) (dir : V2 ℝ) :
     ∀ (L : List (V2 ℝ)) (best : Option (Nat × V2 ℝ × ℝ)),
       (∀ p ∈ L, Touches pts r wi ni p) → BestOK pts r wi best →
-      BestOK pts r wi (L.foldl (pivotCand (pts.getD wi ⟨0, 0⟩) dir dirn ni) best)
+      BestOK pts r wi (L.foldl (pivotCand (pts.getD wi ⟨0, 0⟩) dir r (pts.getD ni ⟨0, 0⟩) dirn ni) best)
   | [], best, _, hb => hb
   | p :: L, best, hL, hb => by
     rw [List.foldl_cons]
